@@ -964,3 +964,79 @@ def casts_visit(R):
                 ok = ok and isinstance(x, a.CastExpression) and x.GetArgument() is e and tc.desc(x.GetType())[1] == want_c and tc.desc(x.GetType())[0] == tc.desc(T[t])[0] \
                     and [str(z3.simplify(d)) for d in tc.desc(x.GetType())[2]] == [str(z3.simplify(d)) for d in tc.desc(T[t])[2]]
         R.check(f"CASTS.construct[{rt}({','.join(ats)})]", AIC + ".v_ConstructPrimitiveExpression", ok, detail=f"arguments after the pass {[type(x).__name__ + ':' + str(x.GetType()) for x in args]}")
+
+
+# ---------------------------------------------------------------------------
+# Function names of an IR module are unique (C14: a call names ONE existing function with the same number of arguments)
+
+VEF = "nsl.passes.ValidateExportedFunctions::ValidateExportedFunctionsVisitor"
+
+
+@family("C14.names", props=["C14", "C10", "C03", "C05"],
+        functions=[VEF + "._ValidateFunction", VEF + ".v_Function", "nsl.types::Function.GetMangledName", "nsl.passes.LowerToIR::LowerToIRVisitor.v_Function", "nsl.LinearIR::Module.CreateFunction"],
+        assumptions=["sequences of up to 3 function declarations over names {a, b}, arities 0-2 and exported / not exported are enumerated completely for the validator (its state is a set of names: three declarations reach every transition)",
+                     "end to end: a finite family of overload sets (exported and not, equal and different arity, equal parameter names)"])
+def c14_names(R):
+    """An exported function keeps its bare name in the IR, so two exported functions of one name -- whatever their parameter lists -- must be
+    rejected; non-exported overloads get distinct mangled names.  Hence every defined source function has its own IR function, and a call
+    (which carries only a name) reaches a function with the argument count it was resolved against."""
+    import nsl.types as ty
+    a = ag.A()
+    cls = resolve(VEF)
+    decls = [(n, k, e) for n in "ab" for k in (0, 1, 2) for e in (False, True)]
+    bad = None
+    cnt = 0
+    for ln in (1, 2, 3):
+        for seq in itertools.product(decls, repeat=ln):
+            v = cls()
+            v.SetErrorHandler(_handler())
+            for n, k, e in seq:
+                f = a.Function(n, [a.Argument(ty.Integer(), f"p{i}") for i in range(k)], ty.Integer(), ag.S("body"), isExported=e)
+                ag.visitor_step(v, f, None)
+            exported = [n for n, k, e in seq if e]
+            want = len(exported) == len(set(exported))
+            cnt += 1
+            if bool(v.valid) != want and bad is None:
+                bad = (seq, v.valid, want)
+    R.check("C14.names.validator", VEF + "._ValidateFunction", bad is None,
+            detail=f"{cnt} declaration sequences" if bad is None else f"declarations (name, arity, exported) {bad[0]}: valid={bad[1]}, but two exported functions share a name: {not bad[2]}",
+            replay=None if bad is None else script("""
+                import io, contextlib
+                from nsl import Compiler
+                src = {{src}}
+                try:
+                    with contextlib.redirect_stdout(io.StringIO()):
+                        r = Compiler.Compiler().Compile(src)
+                except BaseException as e:
+                    r = None; print('rejected:', type(e).__name__, e)
+                print(src, '->', 'accepted' if r is not None else 'rejected', '; expected', {{want}})
+                if (r is not None) != ({{want}} == 'accepted'): print('REPLAY-CONFIRMED')
+                """, src="\n".join(f"{'export ' if e else ''}function {n}({', '.join(f'int p{i}' for i in range(k))}) -> int {{ return {k}; }}" for n, k, e in (bad[0] if bad else ())),
+                want="accepted" if (bad and bad[2]) else "rejected"))
+
+    # end to end: one IR function per defined source function, calls reach a function of the right arity
+    import nsl.LinearIR as IR
+    fams = {
+        "exported-arity": ["export function h(int a) -> int { return 1; }", "export function h(int a, int b) -> int { return 2; }"],
+        "exported-types": ["export function h(int a) -> int { return 1; }", "export function h(float a) -> int { return 2; }"],
+        "exported+private": ["export function h(int a) -> int { return 1; }", "function h(int a, int b) -> int { return 2; }"],
+        "private-arity": ["function h(int a) -> int { return 1; }", "function h(int a, int b) -> int { return 2; }"],
+        "private-types-same-names": ["function h(int a) -> int { return 1; }", "function h(float a) -> int { return 2; }", "function h(float2 a) -> int { return 3; }"],
+        "private-three": ["function h(int a, float b) -> int { return 1; }", "function h(float a, int b) -> int { return 2; }", "function h(int a) -> float { return 3.0; }"],
+    }
+    for label, fs in fams.items():
+        for perm in itertools.permutations(fs):
+            ncalls = [(f.split("(")[1].split(")")[0].count(",") + 1) for f in perm]
+            src = "\n".join(perm) + "\nexport function main(int x) -> int { return x; }"
+            r, exc = tc.compile_quiet(src)
+            nexp = sum(1 for f in perm if f.startswith("export function h"))
+            oid = f"C14.names.e2e[{label},{'/'.join(str(fs.index(p)) for p in perm)}]"
+            if nexp > 1:
+                R.check(oid, VEF + "._ValidateFunction", r is None, detail=f"two exported functions named h must be rejected:\n{src}")
+                continue
+            if r is None:
+                R.check(oid, "nsl.Compiler::Compiler.Compile", False, detail=f"rejected ({exc!r}):\n{src}")
+                continue
+            names = list(r.IRModule.Functions.keys())
+            R.check(oid, "nsl.LinearIR::Module.CreateFunction", len(names) == len(perm) + 1 and len(set(names)) == len(names),
+                    detail=f"{len(perm) + 1} source functions but IR functions {names} (an overload overwrote another one)")
